@@ -63,7 +63,7 @@ def check_case(spec, seed, obs, tag='random'):
     ncontent = sum(1 for s in layout if 'coff' in s)
     obs.case(spec, nontrivial=ncontent >= 2)
     obs.count('case:%s' % tag)
-    if data != want:
+    if not common.bytes_equivalent(data, want, layout)[0]:
         i = next((j for j in range(min(len(data), len(want)))
                   if data[j] != want[j]), min(len(data), len(want)))
         sec = [s for s in layout if s['hoff'] <= i][-1]
